@@ -84,19 +84,19 @@ def recLt (r x : IncRec) : Prop := r.uptime < x.uptime ∨ (r.uptime = x.uptime 
 
 instance (r x : IncRec) : Decidable (recLt r x) := by unfold recLt; infer_instance
 
-theorem insertRec_last {pre : List IncRec} {r : IncRec} (h : ∀ x ∈ pre, recLt x r) : insertRec pre r = pre ++ [r] := by
+/-- the condition under which `insertRec` appends: no stored key is AFTER the new one (equal keys go behind) -/
+theorem insertRec_last {pre : List IncRec} {r : IncRec} (h : ∀ x ∈ pre, ¬ recLt r x) : insertRec pre r = pre ++ [r] := by
   induction pre with
   | nil => rfl
   | cons x xs ih =>
     have h1 := h x List.mem_cons_self
-    have : ¬ (r.uptime < x.uptime ∨ (r.uptime = x.uptime ∧ r.id < x.id)) := by
-      unfold recLt at h1; omega
+    have : ¬ (r.uptime < x.uptime ∨ (r.uptime = x.uptime ∧ r.id < x.id)) := h1
     simp only [insertRec, if_neg this, ih (fun y hy => h y (List.mem_cons_of_mem _ hy)), List.cons_append]
 
-theorem foldl_insertRec : ∀ (l pre : List IncRec), (pre ++ l).Pairwise recLt → l.foldl insertRec pre = pre ++ l
+theorem foldl_insertRec : ∀ (l pre : List IncRec), (pre ++ l).Pairwise (fun a b => ¬ recLt b a) → l.foldl insertRec pre = pre ++ l
   | [], pre, _ => by simp
   | x :: xs, pre, h => by
-    have hx : ∀ y ∈ pre, recLt y x := fun y hy => (List.pairwise_append.mp h).2.2 y hy x List.mem_cons_self
+    have hx : ∀ y ∈ pre, ¬ recLt x y := fun y hy => (List.pairwise_append.mp h).2.2 y hy x List.mem_cons_self
     rw [List.foldl_cons, insertRec_last hx, foldl_insertRec xs (pre ++ [x]) (by simpa [List.append_assoc] using h)]
     simp [List.append_assoc]
 
@@ -118,14 +118,14 @@ structure FullWF (s : Full) : Prop where
   recs : s.fees.acc.recs.map (·.id) = s.fees.pool.positions.map (·.id)
   urecs : ∀ a ∈ s.inc.accs, (a.recs.filter (fun r => live s r.id)).map (·.id) = s.fees.pool.positions.map (·.id)
   join : (s.inc.join.filter (fun e => live s e.1)).map (·.1) = s.fees.pool.positions.map (·.id)
-  records : s.inc.records.Pairwise recLt
+  records : s.inc.records.Pairwise (fun a b => ¬ recLt b a)
 
 instance (s : Full) : Decidable (FullWF s) :=
   decidable_of_iff
     ((s.fees.pool.positions.map (fun (q : Position) => q.id)).Pairwise (fun (a b : Nat) => a < b) ∧ List.Pairwise (fun (a b : TickInfo) => a.tick < b.tick) s.fees.pool.ticks ∧ s.fees.acc.outs.map (·.1) = s.fees.pool.ticks.map (·.tick) ∧
      s.inc.trackers.map (·.1) = s.fees.pool.ticks.map (·.tick) ∧ s.fees.acc.recs.map (·.id) = s.fees.pool.positions.map (·.id) ∧
      (∀ a ∈ s.inc.accs, (a.recs.filter (fun r => live s r.id)).map (·.id) = s.fees.pool.positions.map (·.id)) ∧
-     (s.inc.join.filter (fun e => live s e.1)).map (·.1) = s.fees.pool.positions.map (·.id) ∧ s.inc.records.Pairwise recLt)
+     (s.inc.join.filter (fun e => live s e.1)).map (·.1) = s.fees.pool.positions.map (·.id) ∧ s.inc.records.Pairwise (fun a b => ¬ recLt b a))
     ⟨fun ⟨a, b, c, d, e, f, g, h⟩ => ⟨a, b, c, d, e, f, g, h⟩, fun ⟨a, b, c, d, e, f, g, h⟩ => ⟨a, b, c, d, e, f, g, h⟩⟩
 
 /-! ## ticks -/
